@@ -137,6 +137,11 @@ def run_tasks(jobs, procs=None, progress=None):
                 continue
             limit = jobs[w['k']][2]
             dead = not w['proc'].is_alive()
+            if dead:
+                # a worker that retires exits right after queueing its last result: that message may still be in flight - wait for it
+                w.setdefault('dead_since', now)
+                if now - w['dead_since'] < 6:
+                    continue
             if dead or now - w['start'] > limit + GRACE_S:
                 k = w['k']
                 try:
